@@ -18,6 +18,7 @@ import (
 // merged is the per-harness view over all its shards.
 type merged struct {
 	H          Harness
+	Skipped    string // non-empty: the harness file does not compile against this tree (reason)
 	Shards     []Result
 	Paths, Completed, Nontrivial, Decisions, Queries, Sat, Unsat, Unknown int
 	SolverS, WallS float64
@@ -168,6 +169,18 @@ func cmdCheck(args []string) int {
 		}
 	} else {
 		goVersion, loadS = l.gover, l.loadS
+		// harnesses whose file does not compile against this tree are skipped (reported below), the others run
+		if len(skippedOverlay) > 0 {
+			var kept []Job
+			for _, j := range jobs {
+				if why, skip := skippedOverlay[harnessVirtualPath(byFn[j.Fn].H)]; skip {
+					byFn[j.Fn].Skipped = why
+					continue
+				}
+				kept = append(kept, j)
+			}
+			jobs = kept
+		}
 		results = runJobs(l, jobs, nw, func(r Result) {
 			if *verbose {
 				printResult(r)
@@ -239,7 +252,7 @@ func cmdCheck(args []string) int {
 	// ---- per-harness obligations: vacuity, undecided, unsupported ----
 	for _, fn := range order {
 		m := byFn[fn]
-		if len(m.Problems) > 0 {
+		if len(m.Problems) > 0 || m.Skipped != "" {
 			continue
 		}
 		wantA, wantC := labelsInBody(m.H)
@@ -375,6 +388,17 @@ func cmdCheck(args []string) int {
 				lines = append(lines, fmt.Sprintf("INCONCLUSIVE harness=%s: %s", fn, p))
 			}
 		}
+	}
+	skipped := 0
+	for _, fn := range order {
+		if m := byFn[fn]; m.Skipped != "" {
+			skipped++
+			lines = append(lines, fmt.Sprintf("SKIPPED harness=%s: its file does not compile against this tree (an identifier it uses was renamed or removed?): %s", fn, tail(m.Skipped, 240)))
+		}
+	}
+	if skipped == len(order) {
+		inconclusive++
+		lines = append(lines, "INCONCLUSIVE: every harness of this property was skipped")
 	}
 	if exit == 0 && inconclusive > 0 {
 		exit = 2
